@@ -483,8 +483,8 @@ class CompositeFrontend(ConstrainedFrontend):
             for o in others:
                 o._owned_solvers.discard(s)
 
-            for v in s.variables:
-                merged._solvers[v] = s
+            # the shared child has not been checked on behalf of the merged solver
+            merged._store_child(s)
 
         noncommon_solvers = [[s for s in cs._solver_list if id(s) not in common_ids] for cs in [self, *others]]
 
